@@ -131,6 +131,8 @@ struct MFact {
     live: bool,
     /// contents certain (written by the client and not touched by a firing since)
     known: bool,
+    /// step of the client's last insert/update of this fact
+    last_write: usize,
 }
 
 fn viol(clause: &str, site: &str, sig: &str, msg: String, step: usize) -> Violation {
@@ -209,6 +211,8 @@ fn run_pass(t: &ReteTrace, obs: &mut Obs, primary: bool) -> Result<(), Violation
     let mut fired_since_reset: BTreeSet<usize> = BTreeSet::new();
     let mut total_firings = 0usize;
     let mut stale_pending = false;
+    // step of the most recent fire_all (only fire_all consumes activations)
+    let mut last_fire_all: Option<usize> = None;
     for (step, op) in t.ops.iter().enumerate() {
         match op {
             ROp::Insert { ty, a, b } => {
@@ -224,7 +228,7 @@ fn run_pass(t: &ReteTrace, obs: &mut Obs, primary: bool) -> Result<(), Violation
                     }
                 }
                 ids.push(h.id());
-                facts.push(MFact { ty: *ty, a: *a, b: *b, uid, live: true, known: true });
+                facts.push(MFact { ty: *ty, a: *a, b: *b, uid, live: true, known: true, last_write: step });
             }
             ROp::Update { h, a, b } => {
                 if facts.is_empty() {
@@ -244,6 +248,7 @@ fn run_pass(t: &ReteTrace, obs: &mut Obs, primary: bool) -> Result<(), Violation
                     facts[k].a = *a;
                     facts[k].b = *b;
                     facts[k].known = true;
+                    facts[k].last_write = step;
                     let now_sat: Vec<bool> = t.rules.iter().map(|r| r.ty == facts[k].ty && cond_holds(r, *a, *b)).collect();
                     if was_sat.iter().zip(&now_sat).any(|(w, n)| *w && !*n) {
                         stale_pending = true;
@@ -287,6 +292,10 @@ fn run_pass(t: &ReteTrace, obs: &mut Obs, primary: bool) -> Result<(), Violation
                 };
                 let firings: Vec<Firing> = log.lock().unwrap().clone();
                 total_firings += firings.len();
+                if primary {
+                    // what the engine did goes into the run's fingerprint (determinism self-test)
+                    obs.fp_str(&format!("{fired_list:?}|{:?}", firings.iter().map(|f| f.handle).collect::<Vec<_>>()));
+                }
                 // the set of rules satisfied by some live fact BEFORE the call (only meaningful when
                 // actions leave working memory unchanged)
                 let satisfied_before: BTreeSet<usize> = (0..t.rules.len())
@@ -391,15 +400,23 @@ fn run_pass(t: &ReteTrace, obs: &mut Obs, primary: bool) -> Result<(), Violation
                         }
                     }
                     for ri in &satisfied_before {
-                        // must fire: never fired on this engine before (so no activation of it was ever
-                        // consumed); after an earlier firing + reset the property's wording leaves open
-                        // whether the consumed activations come back
+                        // must fire: the rule has not fired since the last reset and an activation of it
+                        // for a satisfying live fact is certainly pending — either the rule has never fired
+                        // on this engine (no activation of it was ever consumed), or the client wrote that
+                        // fact after the most recent fire_all (only fire_all consumes activations). Whether
+                        // activations consumed before a reset come back by themselves is left open.
                         let earlier: BTreeSet<usize> = fired_ever.difference(&counts.keys().cloned().collect()).cloned().collect();
-                        if !counts.contains_key(ri) && !earlier.contains(ri) && !fired_since_reset.contains(ri) {
-                            return Err(viol("fire.complete", "IncrementalEngine::fire_all", "satisfied-no-loop-rule-did-not-fire", format!("no-loop rule R{ri} is satisfied by a live fact and has never fired, yet fire_all did not fire it (fired {names:?})"), step));
+                        let fresh_activation = facts.iter().any(|f| f.live && f.ty == t.rules[*ri].ty && cond_holds(&t.rules[*ri], f.a, f.b) && last_fire_all.map_or(true, |l| f.last_write > l));
+                        let never_fired = !earlier.contains(ri);
+                        if !counts.contains_key(ri) && !fired_since_reset.contains(ri) && (never_fired || fresh_activation) {
+                            let sig = if never_fired { "satisfied-no-loop-rule-did-not-fire" } else { "satisfied-no-loop-rule-did-not-fire-after-reset" };
+                            return Err(viol("fire.complete", "IncrementalEngine::fire_all", sig, format!("no-loop rule R{ri} is satisfied by a live fact, has not fired since the last reset and an activation of it is pending, yet fire_all did not fire it (fired {names:?})"), step));
                         }
                         if counts.contains_key(ri) {
                             obs.count("probe.complete_clause_rule_fired_once");
+                            if !never_fired {
+                                obs.count("probe.rule_fired_again_after_reset");
+                            }
                         }
                     }
                     obs.count("probe.complete_clause_evaluated");
@@ -408,6 +425,7 @@ fn run_pass(t: &ReteTrace, obs: &mut Obs, primary: bool) -> Result<(), Violation
                     fired_since_reset.insert(f.rule);
                 }
                 stale_pending = false;
+                last_fire_all = Some(step);
                 // resynchronise contents (and, after RetractByType, liveness) from the engine
                 for (k, ff) in facts.iter_mut().enumerate() {
                     if !ff.known {
@@ -492,7 +510,7 @@ impl World for ReteWorld {
             assumptions: vec![
                 "conditions stay in the typed core (integer fields against integer literals) so that the truth of a condition is beyond dispute".into(),
                 "what a firing writes back is not predicted: after a fire_all whose actions modify facts the model re-reads the contents of live handles from the engine (liveness is always predicted)".into(),
-                "fire.complete demands a firing only for a no-loop rule that has never fired on this engine; after 'fired, then reset' whether consumed activations come back is left open; a second firing between resets is a violation".into(),
+                "fire.complete demands a firing of a no-loop rule that has not fired since the last reset when an activation of it is certainly pending: the rule has never fired on this engine, or the client inserted/updated a satisfying fact after the most recent fire_all; whether activations consumed before a reset come back by themselves is left open; a second firing between resets is a violation".into(),
                 "the matched fact's contents 'at the moment of firing' are read from the handle-prefixed view the engine hands to the action, cross-checked against the client's last write when that is certain".into(),
             ],
             required_probes: vec![
@@ -503,6 +521,7 @@ impl World for ReteWorld {
                 "probe.reset",
                 "probe.complete_clause_evaluated",
                 "probe.complete_clause_rule_fired_once",
+                "probe.rule_fired_again_after_reset",
                 "probe.alt_hash_seed_pass",
                 "fault.clock_stalled",
             ],
